@@ -42,7 +42,7 @@ func (in *Interp) blobTable() map[int]*blobRec {
 	return t
 }
 
-func exportedField(f *types.Var) bool { return f.Exported() }
+func blobExportedField(f *types.Var) bool { return f.Exported() }
 
 // snapshot returns a deep copy of v (static type t) with the codec normalisations applied.
 func (in *Interp) snapshot(v value, t types.Type, depth int) value {
@@ -78,7 +78,7 @@ func (in *Interp) snapshot(v value, t types.Type, depth int) value {
 		out := make(structure, len(s))
 		for i := range s {
 			f := tt.Field(i)
-			if exportedField(f) {
+			if blobExportedField(f) {
 				out[i] = in.snapshot(s[i], f.Type(), depth+1)
 			} else {
 				out[i] = in.zero(f.Type())
@@ -287,7 +287,7 @@ func (in *Interp) blobDecode(codec string, b value, dst value) value {
 	}
 	for i := range src {
 		f := st.Field(i)
-		if !exportedField(f) {
+		if !blobExportedField(f) {
 			continue
 		}
 		if codec != "proto" {
